@@ -59,7 +59,7 @@ func genURL(t *rapid.T, label, marker string) string {
 
 var specURLs = []string{"", "", "/swagger.json", "/dir/sub/doc.json", "https://h.test/dir/doc.json", `https://h.test/dir/doc.json?x=1&y=<2>`,
 	`/zqS"b.json`, `/zqS'y`, `/zqS<b>.json`, "swagger.json", "dir/doc.json", "../doc.json", "/a//b.json", "/a/../b.json", "http://h.test:8080/spec/openapi.json?x=1",
-	"/api/swagger.json", "/api/docs.json", "/zqS&amp;.json", `/zqS.json?q="'`, "/docs", "/docs/swagger.json", `/zqS%22.json`, "/ü.json"}
+	"/api/swagger.json", "/api/docs.json", "/zqS&amp;.json", `/zqS.json?q="'`, "/docs", "/docs/swagger.json", `/zqS%22.json`, "/ü.json", `/zqS\x.json`, `/zqS\\"; alert(1); //`}
 
 func genBase(t *rapid.T, label string) string {
 	n := rapid.IntRange(0, 2).Draw(t, label+"-n")
@@ -170,7 +170,7 @@ func genReqs(t *rapid.T, docs []string, min, max int) []Req {
 	return out
 }
 
-var oauthCallbacks = []string{"", "", "", "/cb", "/docs/oauth2-callback", "/cb/", "https://h.test/cb", `/zqO"cb`, "/a/../cb", "cb", `/zqO'<cb>`}
+var oauthCallbacks = []string{"", "", "", "/cb", "/docs/oauth2-callback", "/cb/", "https://h.test/cb", `/zqO"cb`, "/a/../cb", "cb", `/zqO'<cb>`, `/zqO\cb`}
 
 // GenMW draws a middleware configuration and 3-6 requests around its document path.
 func GenMW(t *rapid.T) MWCase {
